@@ -1,0 +1,10 @@
+//go:build !verif
+// +build !verif
+
+package flate
+
+func vrtrace(ev string, a, b, c, d int) {}
+
+func vrbool(b bool) int { return 0 }
+
+func vrstop(err error) int { return 0 }
